@@ -13,7 +13,8 @@
       [ack_ranges_ok]           descending, Smallest <= Largest, disjoint and non-adjacent
       [pending tr]              receive time of the first accepted, still unacknowledged ack-eliciting app-data packet *)
 From Coq Require Import List ZArith Bool.
-From V Require Import Gen.Params RecvPH.Model RecvPH.ProofsHist RecvPH.ProofsAck RecvPH.ProofsDue RecvPH.ProofsDup RecvPH.ProofsMissing RecvPH.ProofsNonempty RecvPH.ProofsGap RecvPH.ProofsImmediate RecvPH.ProofsDupTrace.
+From V Require Import Gen.Params RecvPH.Model RecvPH.ProofsHist RecvPH.ProofsAck RecvPH.ProofsDue RecvPH.ProofsDup RecvPH.ProofsMissing RecvPH.ProofsNonempty RecvPH.ProofsGap RecvPH.ProofsImmediate RecvPH.ProofsDupTrace RecvPH.ProofsTimer RecvPH.ProofsGlue.
+From V Require RunLoop.Model.
 Import ListNotations.
 Open Scope Z_scope.
 
@@ -219,6 +220,43 @@ Theorem C07_unconfirmed_stay_acked : forall (ops : list op) A q now only f,
 Proof. exact unconfirmed_stay_acked. Qed.
 Print Assumptions C07_unconfirmed_stay_acked.
 
+(** (c) at the connection: [conn_packet] is the model of connection.go's handleShortHeaderPacket /
+    handleLongHeaderPacket after decryption (unit c07recvglue drives the real functions). After
+    every history of handler calls, a packet whose number was accepted before in its space - the
+    space still exists, the number is above that space's watermark - is dropped before any of its
+    frames is handled, and nothing changes: a duplicate within tracked history never has its frames
+    processed. *)
+Theorem C07_duplicate_frames_not_processed : forall (ops : list op) sp q x p srv d,
+  let hw := runW newHandler (fun _ => None) ops in
+  accepted (trace newHandler ops) sp q ->
+  hist_of (fst hw) sp = Some x -> ~ le_opt q (snd hw sp) ->
+  sp_of (kLvl p) = Some sp -> kPn p = q ->
+  let g := mkG (fst hw) srv d in
+  fst (conn_packet g p) = g /\
+  (snd (conn_packet g p) = GDropDup \/ snd (conn_packet g p) = GDrop0RTT).
+Proof. exact conn_packet_duplicate. Qed.
+Print Assumptions C07_duplicate_frames_not_processed.
+
+(** ... and every run of that glue (without a Go panic) IS such a history: its handler state is
+    [run] of the calls it made, and every packet it processed with a nil result is an accepted
+    packet of that history - so the theorem above applies to whatever packets a connection sees. *)
+Theorem C07_glue_runs_are_histories : forall (ps : list pkt) g,
+  forallb out_ok (snd (conn_run g ps)) = true ->
+  let ops := conn_ops g ps in
+  fst (run (gH g) ops) = gH (fst (conn_run g ps)) /\ no_panic (snd (run (gH g) ops)) /\
+  (forall p, In (p, GProcessed ROk) (combine ps (snd (conn_run g ps))) ->
+     In (Recv (kPn p) (kEcn p) (kLvl p) (kTime p) (existsb frame_ack_eliciting (kFrames p)), ROk) (trace (gH g) ops)).
+Proof. exact conn_run_is_run. Qed.
+Print Assumptions C07_glue_runs_are_histories.
+
+Example C07_example_glue :
+  snd (conn_run (mkG newHandler true false)
+         [mkPkt rph_Enc1RTT 0 1 1000 [1]; mkPkt rph_Enc1RTT 0 1 2000 [1]; mkPkt rph_Enc0RTT 0 1 3000 [0];
+          mkPkt rph_EncHandshake 0 1 4000 [2]])
+  = [GProcessed ROk; GDropDup; GDropDup; GProcessed ROk].
+Proof. vm_compute. reflexivity. Qed.
+Print Assumptions C07_example_glue.
+
 (** REFUTED reading of (c) (DESIGN.md: "p >= Start of the lowest tracked range"): after the limit
     has dropped a range, a later lower packet opens a new lowest range below a forgotten number. *)
 Theorem C07_duplicate_lowstart_refuted :
@@ -243,6 +281,23 @@ Theorem C07_ack_due : forall (ops : list op) t,
      exists f, snd (h_get_ack h rph_Enc1RTT now only) = Some f).
 Proof. exact ack_due. Qed.
 Print Assumptions C07_ack_due.
+
+(** (b) through the connection's timer (composition with C17's model of connection.go
+    maybeResetTimer, whose ACK-alarm input is receivedPacketHandler.GetAlarmTimeout()): while an
+    accepted ack-eliciting application-data packet is unacknowledged and the connection is not
+    hard-blocked (send queue full), either an ACK is queued - the packer's GetAckFrame returns it at
+    once, with onlyIfQueued or not - or the deadline the run loop arms is at most
+    [t_first + MaxAckDelay], and at every wake-up from then on the packer's call returns the frame. *)
+Theorem C07_ack_leaves_by_deadline : forall (ops : list op) t (s : RunLoop.Model.st) pto retire loss,
+  let h := fst (run newHandler ops) in
+  pending (trace newHandler ops) = Some t -> 0 <= t ->
+  RunLoop.Model.blocked s <> rl_blockModeHardBlocked ->
+  (aAckQueued (hApp h) = true /\
+     forall now only, exists f, snd (h_get_ack h rph_Enc1RTT now only) = Some f) \/
+  (RunLoop.Model.maybeResetTimer s pto retire (aAckAlarm (hApp h)) loss <= t + rph_MaxAckDelay /\
+     forall now only, t + rph_MaxAckDelay <= now -> exists f, snd (h_get_ack h rph_Enc1RTT now only) = Some f).
+Proof. exact ack_leaves_by_deadline. Qed.
+Print Assumptions C07_ack_leaves_by_deadline.
 
 (** (b) The ACK is queued on the second ack-eliciting packet, on ECN-CE, and stays queued. *)
 Theorem C07_ack_queued_rules : forall a pn ecn t,
